@@ -146,7 +146,8 @@ Section Cache.
     destruct (loop_index L1 _) as [v2| |]; cbn [rbind] in H; try discriminate.
     destruct (is_collinear v0 v1 v2) as [is_line| |]; cbn [rbind] in H; try discriminate.
     destruct (loop_is_diagonal L1 _) as [is_diag| |]; cbn [rbind] in H; try discriminate.
-    destruct (negb is_line && is_diag); [|eapply IH; eassumption].
+    destruct (ear_test P L1 v0 v1 v2 is_line is_diag) as [is_ear| |]; cbn [rbind] in H; try discriminate.
+    destruct is_ear; [|eapply IH; eassumption].
     destruct (mesh_push v0 v1 v2 (n_triangles t) t) as [t1 r] eqn:Ep. apply cc_push in Ep. destruct r; cbn [rbind] in H; try discriminate.
     assert (Hc : forall (sg : Seg K) (e : Edge) (m m' : Mesh) (r : res unit),
                (if poly_contains_segment P sg then mupd 95%N (n_triangles t) (tp_constrain e) m else (m, Ok tt)) = (m', r) -> Rcc m m').
